@@ -35,15 +35,14 @@ Theorem C13_rep_sep_eq_lua : forall s n sep r, in_i64 n -> slen s <= maxint -> s
 Proof. exact rep_sep_eq_lua. Qed.
 Print Assumptions C13_rep_sep_eq_lua.
 
-(* full statement [rep_memory_safe]: string.rep never writes outside its buffer.  After b10c461 it is false
-   at exactly one size (n * #s = 2^64 - 1: string.create asks the allocator for size + 1 = 0 bytes) *)
-Theorem C13_rep_memory_safe_refuted : ~ rep_memory_safe.
-Proof. exact rep_memory_safe_refuted. Qed.
-Print Assumptions C13_rep_memory_safe_refuted.
+(* string.rep never writes outside its buffer (after b10c461, c3dc3fb): full strength, with and without separator *)
+Theorem C13_rep_memory_safe : forall s n, nl_rep s n <> Unsafe.
+Proof. exact rep_memory_safe. Qed.
+Print Assumptions C13_rep_memory_safe.
 
-Theorem C13_rep_memory_safe_partial : forall s n, 0 <= n -> n * slen s <> two64 - 1 -> nl_rep s n <> Unsafe.
-Proof. exact rep_memory_safe_partial. Qed.
-Print Assumptions C13_rep_memory_safe_partial.
+Theorem C13_rep_sep_memory_safe : forall s n sep, slen s <= maxint -> slen sep <= maxint -> nl_rep_sep s n sep <> Unsafe.
+Proof. exact rep_sep_memory_safe. Qed.
+Print Assumptions C13_rep_sep_memory_safe.
 
 Theorem C13_reverse_eq_lua : forall s, nl_reverse s = lua_reverse s.
 Proof. exact reverse_eq_lua. Qed.
@@ -219,18 +218,20 @@ Proof. exact pack_uint_eq_lua. Qed.
 Print Assumptions C13_pack_uint_eq_lua.
 
 (* ---- (h) the pattern matcher itself ---- *)
-(* full statement [match_eq_lua] (same result on every subject and pattern) is still false, for one reason:
-   the port's recursion budget (32) is smaller than Lua's (200); witness: 31 nested captures *)
-Theorem C13_match_eq_lua_refuted : ~ match_eq_lua.
-Proof. exact match_eq_lua_refuted. Qed.
-Print Assumptions C13_match_eq_lua_refuted.
+(* on every subject and pattern the port's matcher returns exactly what Lua's matcher returns (match and
+   captures, no match, malformed-pattern error) or stops with its documented "pattern too complex" (recursion
+   budget MAX_MATCH_CALLS = 32 against Lua's 200) - never another value *)
+Theorem C13_match_eq_lua : forall src pat p0 s, is_bytes src = true ->
+  run_match nl_cfg src pat p0 s = MTooComplex \/ run_match nl_cfg src pat p0 s = run_match lua_cfg src pat p0 s.
+Proof. exact match_eq_lua. Qed.
+Print Assumptions C13_match_eq_lua.
 
-(* wherever the port's matcher neither runs out of its budget nor leaves the subject, it returns what
-   Lua's matcher returns: end position, captures, failure, or malformed-pattern error *)
-Theorem C13_match_eq_lua_partial : forall src pat p0 s r, is_bytes src = true ->
-  run_match nl_cfg src pat p0 s = r -> good r -> run_match lua_cfg src pat p0 s = r.
-Proof. exact match_eq_lua_partial. Qed.
-Print Assumptions C13_match_eq_lua_partial.
+(* ... and it stops exactly when lstrlib.c's own algorithm would if MAXCCALLS were MAX_MATCH_CALLS: the port is
+   Lua's matcher with the smaller budget, result for result *)
+Theorem C13_match_is_lua_with_small_budget : forall src pat p0 s, is_bytes src = true ->
+  run_match nl_cfg src pat p0 s = run_match lua_small_cfg src pat p0 s.
+Proof. exact match_is_lua_with_small_budget. Qed.
+Print Assumptions C13_match_is_lua_with_small_budget.
 
 (* a match that starts inside the subject ends at or after its start and inside the subject *)
 Theorem C13_match_range : forall cfg src pat p0 pos e c,
@@ -239,9 +240,9 @@ Proof. exact pat_matcher_range. Qed.
 Print Assumptions C13_match_range.
 
 (* string.gsub on a real pattern (matcher + driver composed): equal to Lua's gsub whenever the port's
-   matcher stays within its budget and within memory at every position of the subject *)
+   matcher stays within its recursion budget at every position of the subject *)
 Theorem C13_gsub_pattern_eq_lua_partial : forall src pat repl anchor maxn p0, is_bytes src = true ->
-  (forall pos, 0 <= pos <= slen src -> good (run_match nl_cfg src pat p0 pos)) ->
+  (forall pos, 0 <= pos <= slen src -> run_match nl_cfg src pat p0 pos <> MTooComplex) ->
   nl_gsub (pat_matcher nl_cfg src pat p0) src repl anchor maxn =
   lua_gsub (pat_matcher lua_cfg src pat p0) src repl anchor maxn /\
   lua_gsub (pat_matcher lua_cfg src pat p0) src repl anchor maxn <> None.
